@@ -184,7 +184,9 @@ func randomScript(r *rand.Rand, stub bool) []stepT {
 		case 4:
 			return "go"
 		default:
-			return fmt.Sprintf("go depth %d", 1+r.Intn(2))
+			// clocks at their edges: nothing left, only the opponent's clock given, movestogo alone
+			return []string{"go wtime 0 btime 0", "go wtime 0 btime 5000 movestogo 5", "go wtime 5000 btime 0", "go movestogo 20",
+				"go wtime 30000", "go btime 30000", "go wtime 1 btime 1 movestogo 1", fmt.Sprintf("go depth %d", 1+r.Intn(2))}[r.Intn(8)]
 		}
 	}
 	for i := 0; i < n; i++ {
@@ -283,6 +285,13 @@ func directedScenarios() []directedT {
 			steps: []stepT{{Kind: "cmd", Arg: "position startpos"}, {Kind: "cmd", Arg: "go movetime 40"}, {Kind: "release", K: 1, D: 1},
 				{Kind: "cmd", Arg: "position startpos moves e2e4"}, {Kind: "cmd", Arg: "go infinite"}, {Kind: "release", K: 2, D: 1},
 				{Kind: "pause", D: 90}, {Kind: "cmd", Arg: "stop"}, {Kind: "cmd", Arg: "isready"}},
+		},
+		{ // nothing left on the clock: the go must still be answered with a legal move
+			name: "zero-clock",
+			steps: []stepT{{Kind: "cmd", Arg: "position startpos"}, {Kind: "cmd", Arg: "go wtime 0 btime 0"}, {Kind: "release", K: 1, D: 1},
+				{Kind: "release", K: 1, D: 2}, {Kind: "pause", D: 5}, {Kind: "cmd", Arg: "isready"},
+				{Kind: "cmd", Arg: "position startpos moves e2e4"}, {Kind: "cmd", Arg: "go wtime 30000"}, {Kind: "release", K: 2, D: 1},
+				{Kind: "release", K: 2, D: 2}, {Kind: "pause", D: 5}, {Kind: "cmd", Arg: "isready"}},
 		},
 		{ // infinite search: stop must produce the bestmove
 			name: "infinite-stop",
@@ -526,7 +535,8 @@ func realScript(r *rand.Rand) []stepT {
 		case 1:
 			steps = append(steps, stepT{Kind: "cmd", Arg: fmt.Sprintf("go movetime %d", 1+r.Intn(20))})
 		case 2:
-			steps = append(steps, stepT{Kind: "cmd", Arg: fmt.Sprintf("go wtime %d btime %d", 50+r.Intn(500), 50+r.Intn(500))})
+			steps = append(steps, stepT{Kind: "cmd", Arg: []string{fmt.Sprintf("go wtime %d btime %d", 50+r.Intn(500), 50+r.Intn(500)),
+				"go wtime 0 btime 0", "go movestogo 10", "go wtime 400", "go btime 400"}[r.Intn(5)]})
 		default:
 			steps = append(steps, stepT{Kind: "cmd", Arg: fmt.Sprintf("go depth %d", 1+r.Intn(2))})
 		}
